@@ -302,6 +302,9 @@ type C05Peer struct {
 	New   int   `json:"new,omitempty"`   // bugs the second replica creates
 	Edits []int `json:"edits,omitempty"` // bugs (indexes) the second replica edits
 	Jump  int   `json:"jump,omitempty"`  // the second replica's edit clock is pushed forward by that much first
+	// Hold: the second replica does not publish this time; its next turn starts with a pull that merges what the
+	// repository under test published meanwhile (merge commits made elsewhere reach the repository under test)
+	Hold bool `json:"hold,omitempty"`
 }
 
 type C05Step struct {
@@ -351,6 +354,7 @@ func c05GenCase(rng *rand.Rand, idx int, backend string, steps int) C05Case {
 			for k := rng.Intn(3); k > 0; k-- {
 				s.Peer.Edits = append(s.Peer.Edits, rng.Intn(16))
 			}
+			s.Peer.Hold = backend == "gogit" && rng.Intn(4) == 0
 		case "reopen", "wipe":
 			if backend == "mock" {
 				continue // the in-memory implementation cannot be re-opened
@@ -384,6 +388,18 @@ func c05Cases(r *mon.Run) []C05Case {
 		{Op: "reopen"}, {Op: "inc", Clock: "bugs-edit"}, {Op: "wipe", Wipe: "edit"}, {Op: "edit", Bug: 2, N: 3}, {Op: "readall"},
 		{Op: "fetch", Peer: &C05Peer{Edits: []int{0, 1}, Jump: 7}}, {Op: "edit", Bug: 0, N: 1}, {Op: "merge"}, {Op: "edit", Bug: 0, N: 1},
 		{Op: "wipe", Wipe: "create"}, {Op: "create"}, {Op: "wipe", Wipe: "all"}, {Op: "read", Bug: 0}, {Op: "create"},
+	}})
+	// a merge commit made by the second replica (whose clock is ahead) reaches the repository under test, which then edits
+	out = append(out, C05Case{Name: "targeted-foreign-merge-commit-then-write", Backend: "gogit", Steps: []C05Step{
+		{Op: "create", N: 1}, {Op: "push"},
+		{Op: "fetch", Peer: &C05Peer{Edits: []int{0}, Jump: 7, Hold: true}},
+		{Op: "edit", Bug: 0, N: 1}, {Op: "push"},
+		{Op: "pull", Peer: &C05Peer{}},
+		{Op: "edit", Bug: 0, N: 1}, {Op: "read", Bug: 0},
+		{Op: "fetch", Peer: &C05Peer{Edits: []int{0}, Jump: 60, Hold: true}},
+		{Op: "edit", Bug: 0, N: 2}, {Op: "push"},
+		{Op: "pull", Peer: &C05Peer{}}, {Op: "reopen"},
+		{Op: "edit", Bug: 0, N: 1}, {Op: "readall"},
 	}})
 	out = append(out, C05Case{Name: "targeted-mock-merge-write", Backend: "mock", Steps: []C05Step{
 		{Op: "create", N: 2}, {Op: "push"},
@@ -574,6 +590,10 @@ func (e *c05Env) peerActs(p *C05Peer) error {
 		e.res.Counts["peer_edits"]++
 	}
 	// publish
+	if p.Hold {
+		e.res.Counts["peer_held_back"]++
+		return nil
+	}
 	if e.backend == "gogit" {
 		if err := e.b.Push("origin"); err != nil {
 			// a non-fast-forward push is possible when both sides edited: the peer merges first
